@@ -9,6 +9,7 @@ import difflib
 
 from ..diff_format import SequenceDiffBuilder, MappingDiffBuilder, validate_diff
 from ..diff_utils import count_consumed_symbols
+from ..utils import strict_equals
 
 from .config import DiffConfig
 from .sequences import diff_strings_linewise, diff_sequence
@@ -18,7 +19,7 @@ __all__ = ["diff"]
 
 
 def default_predicates():
-    return defaultdict(lambda: (operator.__eq__,))
+    return defaultdict(lambda: (strict_equals,))
 
 
 def default_differs():
@@ -229,7 +230,7 @@ def diff_dicts(a, b, path="", config=None):
                 raise RuntimeError(
                     "Found predicate(s) for path {} pointing to dict entry.".format(
                         path or '/'))
-            if avalue != bvalue:
+            if not strict_equals(avalue, bvalue):
                 di.replace(key, bvalue)
 
     for key in sorted(bkeys - akeys):
